@@ -22,6 +22,12 @@ func init() {
 			"(\"the same settling period\"). A failed UpdateStatus after a release drops the computed ReprocessAll (fault sequence; noted in DESIGN.md O-1).",
 		Run: runC07,
 		Mutants: []Mutant{
+			{Name: "pinned-enumeration-stops-at-unusable-pool", File: "internal/allocator/allocator.go",
+				Old: "\t\t\tif !nsPool.AutoAssign || !a.isPoolCompatibleWithService(nsPool, svc) {\n\t\t\t\tcontinue\n",
+				New: "\t\t\tif !nsPool.AutoAssign || !a.isPoolCompatibleWithService(nsPool, svc) {\n\t\t\t\tbreak\n", Expect: "every-pinned-pool-examined"},
+			{Name: "backend-key-from-service-labels", File: "internal/allocator/k8salloc/k8salloc.go",
+				Old: "labels.Set(svc.Spec.Selector)",
+				New: "labels.Set(svc.Labels)", Expect: "SHAREOK"},
 			{Name: "allocation-key-without-backend", File: "internal/allocator/allocator.go",
 				Old: "\t\treturn alloc.key.backend + alloc.key.sharing",
 				New: "\t\treturn alloc.key.sharing", Expect: "sharing-and-backend"},
@@ -79,6 +85,11 @@ func runC07(p *chk.Prog, r *chk.Report) {
 	unassignCompleteRule(p, r)
 	// a pool admits a Service that matches any one of its selectors (POOL-COMPAT, shared with C02)
 	c02PoolCompat(p, r)
+	// what "may share" means - the backend key is the pod selector under the Local policy - decides whether the only
+	// admissible address is found (SHAREOK, shared with C01)
+	c01ShareOK(p, r)
+	// every pool pinned to the Service is offered (PINNED, shared with C02)
+	c02Pinned(p, r)
 }
 
 func c07Release(p *chk.Prog, r *chk.Report) {
